@@ -130,7 +130,7 @@ func idsFrom(u *gen.Universe, blocks []*gen.Block, floor uint64) *node.Ids {
 // re-running the prune succeeds and ends like the uninterrupted prune; the chain still extends.
 func TestPropPruneInterrupted(t *testing.T) {
 	stats.Check(t, stats.Budget{Quick: 6, Thorough: 60},
-		"chain of 22-40 generated blocks on a pruning node (legacy backend, pruner's filter initializer and retention floor) and an unpruned twin; optional first complete prune, then PruneUpto(end, batch size 1 byte or default) is run once to count its committed writes W and for every k<=W (quick: 4 drawn) re-run with (a) crash after write k -> fresh Blockchain on the image, (b) write k fails -> same object; oracle: OldestRetainedBlock f of the image; Reader answers and state for every block >= f equal the twin's; re-running the prune succeeds and the node then equals the uninterrupted prune observationally; the next block stores; non-trivial = k strictly inside the prune (not its last write)",
+		"chain of 22-40 generated blocks on a pruning node (legacy backend, pruner's filter initializer and retention floor) and an unpruned twin; optional first complete prune, then PruneUpto(end, batch size 1 byte or default) is run once to count its committed writes W and for every k<=W (quick: 4 drawn) re-run with (a) crash after write k -> fresh Blockchain on the image, (b) write k fails -> same object, (d) the m-th write STAGED into a batch fails (4 drawn, thorough 60) -> same object; oracle: OldestRetainedBlock f of the image; Reader answers and state for every block >= f equal the twin's; re-running the prune succeeds and the node then equals the uninterrupted prune observationally; the next block stores; non-trivial = k strictly inside the prune (not its last write)",
 		func(rt *rapid.T, c *stats.Case) {
 			u := gen.NewUniverse(rt)
 			ch := gen.NewChain(u, gen.Opts{MaxTxs: 2, MaxEvents: 2})
@@ -189,6 +189,7 @@ func TestPropPruneInterrupted(t *testing.T) {
 				c.Violation("prune-failed-without-fault", "PruneUpto(%d): %v", end2, err)
 			}
 			W := fs.Commits
+			WR := fs.Writes
 			refNode := prunedNode(fs.KeyValueStore, u)
 			refFloor := checkAgainstTwin("uninterrupted prune", refNode)
 			var ks []int
@@ -273,8 +274,37 @@ func TestPropPruneInterrupted(t *testing.T) {
 					}
 				}
 			}
+			// (d) ONE write into a batch of the prune fails (the k-th write, not the k-th commit); same process
+			nm := min(WR, 4)
+			if stats.Thorough() {
+				nm = min(WR, 60)
+			}
+			seenM := map[int]bool{}
+			for len(seenM) < nm {
+				m := rapid.IntRange(1, WR).Draw(rt, "m")
+				if seenM[m] {
+					continue
+				}
+				seenM[m] = true
+				c.Info("prune-single-write-fault-points")
+				inner := build()
+				fs := fault.New(inner)
+				fs.FailWriteAt = m
+				nd := prunedNode(fs, u)
+				_, _, err := pruner.PruneUpto(context.Background(), fs, end2, batch)
+				if !fs.FailedWrite {
+					c.Label("prune-write-fault-point-not-reached")
+					continue
+				}
+				if err == nil {
+					c.Label("prune-tolerated-a-failed-write")
+				}
+				where := fmt.Sprintf("staged write %d of %d of PruneUpto(%d) failed (PruneUpto returned %v)", m, WR, end2, err)
+				checkAgainstTwin(where, nd)
+				finish(where, nd)
+			}
 			c.Sample(func() any {
-				return map[string]any{"blocks": n, "first_prune_to": end1, "prune_to": end2, "batch": batch, "writes": W, "fault_points": ks}
+				return map[string]any{"blocks": n, "first_prune_to": end1, "prune_to": end2, "batch": batch, "writes": W, "fault_points": ks, "staged_writes": WR}
 			})
 		})
 }
